@@ -104,6 +104,16 @@ def readProgram (txt : Name) : Option (List PStruct) :=
 
 /-! ## legality of identifiers on the supported alphabet -/
 
+/-- names over identifier characters and `-`, `.`, `:` whose first alphanumeric character is a letter,
+all inside the supported alphabet (C04's domain) -/
+def nameOK (n : Name) : Bool :=
+  n.all (fun c => inSigma c && (isAlnum c || c = '_' || c = '-' || c = '.' || c = ':')) &&
+  (match n.find? isAlnum with
+   | some c => isLetter c
+   | none => false)
+
+
+
 def xidStart (c : Char) : Bool := isLetter c
 def xidContinue (c : Char) : Bool := isAlnum c || c = '_'
 
